@@ -16,6 +16,9 @@ ASSUMPTIONS = ["distances are computed in float64 exactly as documented (Euclide
 def one_case(run, specs, gamma, pts, npos, Z, thr, transform=None, kind=""):
     from gbasis.evals.electrostatic_potential import electrostatic_potential
     basis = make_basis(specs)
+    if (len(pts) + len(npos)) % 2:       # the basis is documented as "list/tuple" of shells: every other case passes a tuple
+        basis = tuple(basis)
+        run.count("basis given as a tuple")
     rep = {"case": "esp", "basis": core.describe_basis(specs), "gamma": gamma.tolist(), "points": pts.tolist(), "nuclei": npos.tolist(),
            "charges": Z.tolist(), "threshold": thr, "transform": None if transform is None else transform.tolist()}
     run.case(("esp", kind, thr) + sig(specs) + (transform is not None,),
